@@ -134,7 +134,7 @@ protected:
     void                          setURCharRef();
     bool                          isDefaultNamespacePrefixDeclared() const;
     bool                          isNamespaceBindingActive(const XMLCh* prefix, const XMLCh* uri) const;
-    void                          ensureValidString(const DOMNode* nodeToWrite, const XMLCh* string);
+    void                          ensureValidString(const DOMNode* nodeToWrite, const XMLCh* string, bool charRefsPossible = false);
 
 
     void printIndent(unsigned int level);
